@@ -126,7 +126,7 @@ def generate(rng, tier: str, index: int) -> dict:
     for k in kinds:
         n = rng.randint(5, 60 if tier == 'thorough' else 30)
         scripts[k] = [[rng.choice(favourites) if rng.chance(0.8) else rng.randint(0, len(POOL) - 1), rng.choice([0.0, 0.0, 0.001, 0.01, 0.05, 0.15])] for _ in range(n)]
-    return {'micro_seed': rng.randint(1, 1 << 48), 'knobs': knobs(rng), 'scripts': scripts}
+    return {'micro_seed': rng.randint(1, 1 << 48), 'knobs': knobs(rng), 'scripts': scripts, 'late': rng.choice(kinds) if rng.chance(0.3) else None}
 
 
 _ENV = re.compile(r'"(time|counter|pid|ppid)"\s*:\s*[0-9.]+,\s*|"host"\s*:\s*"[^"]*",\s*')
@@ -147,15 +147,22 @@ def simulate(plan: dict, scripts: dict, seed_salt: int = 0) -> dict:
         confs.append(
             {
                 'peer_ip': kd['peer_ip'], 'local_ip': LOCAL, 'local_as': 65001, 'peer_as': kd['peer_as'], 'router_id': LOCAL, 'hold': 180,
-                'families': [(1, 1), (2, 1)], 'adj-rib-in': True, 'caps': {'asn4': kd['asn4'], 'add-path': 'send/receive' if kd['addpath'] else 'disable', 'aigp': bool(kd.get('aigp'))},
+                'families': [(1, 1), (2, 1)], 'adj-rib-in': True, 'caps': {'route-refresh': True, 'asn4': kd['asn4'], 'add-path': 'send/receive' if kd['addpath'] else 'disable', 'aigp': bool(kd.get('aigp'))},
                 'addpath_families': [(1, 1)] if kd['addpath'] else None,
-                'api': {'processes': ['h1'], 'receive': ['parsed', 'update']},
+                'api': {'processes': ['h1'], 'receive': ['parsed', 'update', 'open'], 'send': ['parsed', 'open']},
             }
         )  # fmt: skip
-        spec = {'asn': kd['peer_as'], 'families': [(1, 1), (2, 1)], 'asn4': kd['asn4']}
+        spec = {'asn': kd['peer_as'], 'families': [(1, 1), (2, 1)], 'asn4': kd['asn4'], 'refresh': k != 'asn2'}
         if kd['addpath']:
             spec['addpath'] = [(1, 1, 3)]
-        speakers[k] = Speaker(w, k, kd['peer_ip'], kd['peer_as'], kd['peer_ip'], LOCAL, hold=180, caps=speaker_caps(spec))
+        caps = speaker_caps(spec)
+        if k in ('asn2', 'ibgp-ap'):
+            caps.append((128, b''))  # the pre-RFC (Cisco) route-refresh code: alone on one session, next to code 2 on another
+        speakers[k] = Speaker(w, k, kd['peer_ip'], kd['peer_as'], kd['peer_ip'], LOCAL, hold=180, caps=caps)
+        if plan.get('late') == k and len(scripts) > 1:
+            # this session only comes up once the others have exchanged their OPENs
+            speakers[k].accept_mode = 'refuse'
+            w.at(1.5, lambda sp=speakers[k]: setattr(sp, 'accept_mode', 'accept'))
     w.boot(config_text([{'name': 'h1'}], confs))
     h = w.procs.helper('h1')
     started = set()
@@ -182,8 +189,9 @@ def simulate(plan: dict, scripts: dict, seed_salt: int = 0) -> dict:
             first = sp.sessions[0] if sp.sessions else None
             alive[k] = first is not None and first.state == 'established' and len(sp.sessions) == 1
 
-    w.at(total + 3.5, snapshot_alive)
-    w.run(until=total + 4.0)
+    late = 8.0 if plan.get('late') in scripts and len(scripts) > 1 else 0.0  # exabgp's connect retry after the refusals
+    w.at(total + late + 3.5, snapshot_alive)
+    w.run(until=total + late + 4.0)
     out = {}
     for k, sp in speakers.items():
         kd = KINDS[k]
@@ -193,7 +201,8 @@ def simulate(plan: dict, scripts: dict, seed_salt: int = 0) -> dict:
         if peer is not None and peer.neighbor.rib is not None:
             for route in peer.neighbor.rib.incoming.cached_routes():
                 rib[str(route.nlri)] = route.extensive()
-        out[k] = {'events': ev, 'rib': rib, 'closed': not alive.get(k, False)}
+        opens = [norm_event(ln) for _, ln in h.lines if '"type": "open"' in ln and f'"peer": "{kd["peer_ip"]}"' in ln]
+        out[k] = {'events': ev, 'rib': rib, 'closed': not alive.get(k, False), 'opens': opens}
     out['_world'] = w
     return out
 
@@ -232,6 +241,7 @@ def execute(plan: dict) -> dict:
     main = simulate(plan, scripts)
     w = main['_world']
     violations = []
+    recorded: list = []
     bodies: dict = {}
     for k, sc in scripts.items():
         probes['messages'] += len(sc)
@@ -246,6 +256,15 @@ def execute(plan: dict) -> dict:
         if main[k]['closed']:
             violations.append(viol('C19/session-lost-in-sequence', f'session {k}: every message of the sequence keeps the session up when decoded alone, but the session ended during the sequence'))
             break
+        if main[k]['opens'] != solo[k]['opens']:
+            flat = lambda evs: [e.replace('"variant": "Cisco"', '"variant": "RFC"') for e in evs]  # noqa: E731
+            only_variant = flat(main[k]['opens']) == flat(solo[k]['opens'])
+            v = viol('C19/open-event-depends-on-history', f'session {k}: the OPENs of the session are reported as {str(main[k]["opens"])[-400:]} next to other sessions, and as {str(solo[k]["opens"])[-400:]} when the session is the only one', kind=k, only_route_refresh_variant=only_variant)
+            if only_variant:
+                recorded.append(v)  # a recorded finding (known_findings.jsonl): everything else in the run is still judged
+            else:
+                violations.append(v)
+                break
         expected_events = []
         for idx, _ in sc:
             expected_events.extend(alone[(k, idx)]['events'])
@@ -266,6 +285,7 @@ def execute(plan: dict) -> dict:
             violations.append(viol('C19/adj-rib-in-depends-on-history', f'session {k}: ' + '; '.join(diff[:3]), kind=k))
             break
     nontrivial = probes['repeats_same_session'] + probes['bodies_on_two_kinds'] > 0
+    violations.extend(recorded[:1])
     return result(w, violations, faults={'interleaved_sessions': len(scripts)}, probes=probes, nontrivial=nontrivial, sample={'kinds': list(scripts), 'messages': probes['messages']})
 
 
